@@ -588,7 +588,8 @@ class SimulationAlgorithm(BaseSimulationAlgorithm):
         for i, feat in enumerate(self.features):
             if model.parameters["noise_std"].numel() == 1:
                 mu = df_long[feat + "_no_noise"]
-                var = model.parameters["noise_std"].numpy() ** 2
+                # (scalar noise may be stored with shape () after a fit, or (1,) after a load)
+                var = model.parameters["noise_std"].numpy().reshape(-1)[0] ** 2
             else:
                 mu = df_long[feat + "_no_noise"]
                 var = model.parameters["noise_std"][i].numpy() ** 2
